@@ -1,0 +1,16 @@
+//go:build verif
+
+package agd
+
+import (
+	"time"
+
+	"github.com/AdguardTeam/AdGuardDNS/internal/dnsserver/ratelimit"
+)
+
+// VerifC09Age moves every stamp recorded by the profile's request counter d
+// into the past, which is, for the code, indistinguishable from the clock
+// having advanced by d.
+func VerifC09Age(r *DefaultRatelimiter, d time.Duration) {
+	ratelimit.VerifC09AgeCounter(r.counter, d)
+}
